@@ -825,7 +825,9 @@ func (t *lpTr) copyCall(c *ast.CallExpr, b *lpBinds) string {
 	}
 	var base string
 	var setBack func(nv string) string
-	if sel, ok := paren(dst.X).(*ast.SelectorExpr); ok {
+	if s, sb, ok := t.marshalCopyDst(dst.X); ok { // loops_marshal.go: a byte-slice field of a local struct value
+		base, setBack = s, sb
+	} else if sel, ok := paren(dst.X).(*ast.SelectorExpr); ok {
 		f, ok := t.lineField(sel)
 		if !ok || sel.Sel.Name != "buffer" {
 			t.refuse(c, "copy destination %s", nodeText(dst.X))
